@@ -32,18 +32,22 @@ GOVERNED_FIELDS = {
 # valuations for R-LIT (literal reading): list of alternative valuations; dangerous if ANY admits an accepting walk
 from vf.rlit import NONZERO  # noqa: E402
 
-LIT_VALUATIONS: Dict[str, List[dict]] = {
-    "rekey-to": [{"RekeyTo": FRESH}],
+# alternatives; each alternative is a list of valuations that are read independently of each other
+# (the detectors' two fields are tracked by independent analyses)
+KIND_UPDATE = {"TypeEnum": 6, "OnCompletion": 4, "ApplicationID": NONZERO}
+KIND_DELETE = {"TypeEnum": 6, "OnCompletion": 5, "ApplicationID": NONZERO}
+LIT_VALUATIONS: Dict[str, List[List[dict]]] = {
+    "rekey-to": [[{"RekeyTo": FRESH}]],
     # the two fields the detector looks at, nothing else (OnCompletion / ApplicationID are not its fields)
-    "can-close-account": [{"CloseRemainderTo": FRESH, "TypeEnum": 1}],
-    "can-close-asset": [{"AssetCloseTo": FRESH, "TypeEnum": 4}],
-    "missing-fee-check": [{"Fee": LIMIT + 1}, {"Fee": MAXU64}],
+    "can-close-account": [[{"CloseRemainderTo": FRESH}, {"TypeEnum": 1}]],
+    "can-close-asset": [[{"AssetCloseTo": FRESH}, {"TypeEnum": 4}]],
+    "missing-fee-check": [[{"Fee": LIMIT + 1}], [{"Fee": MAXU64}]],
     # an application *call* (ApplicationID != 0; only comparisons with 0 are read) with the dangerous OnCompletion
-    "is-updatable": [{"TypeEnum": 6, "OnCompletion": 4, "ApplicationID": NONZERO}],
-    "is-deletable": [{"TypeEnum": 6, "OnCompletion": 5, "ApplicationID": NONZERO}],
-    "unprotected-updatable": [{"TypeEnum": 6, "OnCompletion": 4, "ApplicationID": NONZERO, "Sender": FRESH}],
-    "unprotected-deletable": [{"TypeEnum": 6, "OnCompletion": 5, "ApplicationID": NONZERO, "Sender": FRESH}],
-    "group-size-check": [{"GroupSize": 16}],
+    "is-updatable": [[KIND_UPDATE]],
+    "is-deletable": [[KIND_DELETE]],
+    "unprotected-updatable": [[KIND_UPDATE, {"Sender": FRESH}]],
+    "unprotected-deletable": [[KIND_DELETE, {"Sender": FRESH}]],
+    "group-size-check": [[{"GroupSize": 16}]],
 }
 
 
@@ -53,7 +57,7 @@ def lit_valuations(det: str, g) -> List[dict]:
         return LIT_VALUATIONS[det]
     doms = ravm.Domains(g)
     fees = sorted({f for f in doms.fee if f > LIMIT} | {LIMIT + 1, MAXU64})
-    return [{"Fee": f} for f in fees]
+    return [[{"Fee": f}] for f in fees]
 
 
 def base_env(detector: str, mode: str) -> Optional[ravm.Env]:
